@@ -361,6 +361,11 @@ func configure(g *gen) {
 		{Callee: "_.Value", Value: "($.list.valOf %1)", T: T{"opaque", "Option ρ"}},
 		{Callee: "_.Key", Value: "($.list.keyOf %1)", T: tStr},
 	}
+	add(FnSpec{Func: "NewCachedRoutes", Lean: "NewCR", Extra: []string{"{ρ : Type}"}, Exts: []Ext{
+		{Callee: "list.New", Value: "({} : GoRt.LList ρ)", T: T{"opaque", "GoRt.LList ρ"}},
+		{Callee: "make(map[string]*list.Element)", Value: "({} : GoRt.HMap)", T: T{"opaque", "GoRt.HMap"}},
+		{Callee: "lit.lock", Ignore: true},
+	}})
 	add(FnSpec{Recv: "cachedRoutes", Func: "Len", Lean: "CR.Len", Exts: crExts})
 	add(FnSpec{Recv: "cachedRoutes", Func: "Set", Lean: "CR.Set", Exts: crExts, Mutates: true})
 	add(FnSpec{Recv: "cachedRoutes", Func: "Get", Lean: "CR.Get", Exts: crExts, Mutates: true})
@@ -751,6 +756,19 @@ func configure(g *gen) {
 		"HTMLString", "Stream", "JSON", "JSONBytes", "XML", "JSONP"} {
 		hspec(n)
 	}
+	// `Render`: the router's template renderer writes the view into a NEW buffer (parameter `view`: its output and whether
+	// it failed); only a view that rendered completely is sent, with c.HTML
+	add(FnSpec{Recv: "Context", Func: "Render", Lean: "RC.Render", Mutates: true,
+		Extra: []string{"(renderer : Option Nat)", "(view : Bytes → Bytes × Bool)", "(rerr : GoRt.RKind → Bool)", "(cerr : Bool)"},
+		Types: map[string]T{"*rux.Context": rctx, "rux.Context": rctx, "any": {"opaque", "Unit"}, "*bytes.Buffer": {"opaque", "Bytes"}},
+		Exts: append([]Ext{
+			{Callee: "$.router.Renderer", Value: "renderer", T: T{"opaque", "Option Nat"}},
+			{Callee: "new(bytes.Buffer)", Value: "([] : Bytes)", T: tStr},
+			{Callee: "$.router.Renderer.Render", Stmts: []string{"buf := (view %2).1"}, Value: "(view %2).2", T: errT},
+			{Callee: "buf.Bytes", Value: "buf", T: tStr},
+			{Callee: "errors.New", Value: "true", T: errT},
+			{Callee: "$.HTML", Effect: "(Gen.RC.HTML $ %1 %2 rerr cerr)"},
+		}, rExts...)})
 	// pkg/binding: the source decision of `Auto` (which binder reads what); the binders themselves and the two
 	// form parsers are operations whose only modelled effect is to be recorded as the chosen source
 	// pkg/binding: `Validate` and the three decoders (decode, then validate).  The decoders of the standard library / formam
